@@ -13,6 +13,7 @@ import (
 	"strings"
 
 	"github.com/makiuchi-d/gozxing"
+	"github.com/makiuchi-d/gozxing/qrcode"
 	dmenc "github.com/makiuchi-d/gozxing/datamatrix/encoder"
 	"github.com/makiuchi-d/gozxing/qrcode/decoder"
 	"github.com/makiuchi-d/gozxing/qrcode/encoder"
@@ -211,6 +212,33 @@ func c13RunQR(c *Ctx, ref *c13Ref, r *Rng, k c13Case, suite string) {
 		}
 	}
 	c.Oracle(suite, goOut == want, key, op, "go="+goOut+" want="+want)
+	// rendered symbol: 17 + 4v modules plus the quiet zone on both sides (size 0x0 = one pixel per module)
+	if k.n >= 1 && k.n <= 300 && r.Chance(0.5) {
+		margin := []int{-1, 0, 1, 4, 7}[r.Intn(5)]
+		wh := map[gozxing.EncodeHintType]interface{}{gozxing.EncodeHintType_ERROR_CORRECTION: c07Levels[k.e]}
+		for hk, hv := range hints {
+			wh[hk] = hv
+		}
+		qz := 4
+		if margin >= 0 {
+			wh[gozxing.EncodeHintType_MARGIN] = margin
+			qz = margin
+		}
+		got := Safe(func() string {
+			bm, err := qrcode.NewQRCodeWriter().Encode(content, gozxing.BarcodeFormat_QR_CODE, 0, 0, wh)
+			if err != nil {
+				return "ERR:" + errKind(err)
+			}
+			return fmt.Sprintf("%dx%d", bm.GetWidth(), bm.GetHeight())
+		})
+		wantDim := "ERR:writer"
+		if strings.HasPrefix(want, "ok ") {
+			v, _ := strconv.Atoi(want[3:])
+			wantDim = fmt.Sprintf("%dx%d", 17+4*v+2*qz, 17+4*v+2*qz)
+		}
+		c.Oracle(suite, got == wantDim, "qr-rendered-dimension", fmt.Sprintf("%s margin=%d", op, margin), "go="+got+" want="+wantDim)
+		c.Note("qr-rendered")
+	}
 	if goOut == want {
 		if strings.HasPrefix(goOut, "ok") {
 			c.Note(suite + ":" + c13Modes[k.mode] + ":ok")
